@@ -239,4 +239,47 @@ def popMany (eps : List EP) : List (Key × Nat) → List (List Name) → List Po
     let t := popMany eps r.2 rest
     (r.1 :: t.1, t.2)
 
+/-! ## concurrent pickers (C14): one atomic action per step
+
+`Pop` touches shared mutable state once: `atomic.AddUint64` on the cursor of its ordered ready list (`LoadOrStore` of a
+zero counter before it does not change `lbGet`).  Reading the ready list and indexing it are thread-local.  A thread is
+therefore `start` → (atomic add, remembering the value it was handed) `added c` → (index) `done r`; with fewer than two
+ready endpoints it finishes in its first step without touching the cursors.  `log` is a ghost: the order of first steps. -/
+
+inductive PC
+  | start
+  | added (c : Nat)
+  | done (r : PopOut)
+deriving DecidableEq, Repr
+
+structure Sys where
+  lb : List (Key × Nat)
+  pcs : List PC
+  log : List Nat
+deriving Repr
+
+/-- thread `t` performs its next action -/
+def cstep (eps : List EP) (uss : List (List Name)) (sys : Sys) (t : Nat) : Sys :=
+  match uss[t]?, sys.pcs[t]? with
+  | some us, some .start =>
+    let ready := readyList eps us
+    if 2 ≤ ready.length then
+      let key := ready.map EP.id
+      let c := toU64 (lbGet sys.lb key + 1)
+      { lb := lbSet sys.lb key c, pcs := sys.pcs.set t (.added c), log := sys.log ++ [t] }
+    else
+      { sys with pcs := sys.pcs.set t (.done (pop eps sys.lb us).1), log := sys.log ++ [t] }
+  | some us, some (.added c) =>
+    { sys with pcs := sys.pcs.set t (.done (indexResult (readyList eps us) c)) }
+  | _, _ => sys
+
+def cinit (lb : List (Key × Nat)) (n : Nat) : Sys := { lb := lb, pcs := List.replicate n .start, log := [] }
+
+/-- a schedule: the sequence of thread ids that take a step -/
+def crun (eps : List EP) (uss : List (List Name)) (sys : Sys) (sched : List Nat) : Sys :=
+  sched.foldl (cstep eps uss) sys
+
+def usAt (uss : List (List Name)) (t : Nat) : List Name := (uss[t]?).getD []
+
+
 end KG.Model.Endpoints
